@@ -593,7 +593,10 @@ end File
 /-- **the file `Klattgrid.save` writes**: row by row (each row followed by a newline) it is the layout
 `fileLines` of the tree whose point numerals have been normalised by `cz` (a zero-valued literal that `int()`
 rejects becomes `0` — `0.0` — or `-0` when it starts with a minus sign — `-0.0`; every other numeral is kept as
-given). -/
+given).  `WriterOk` (names on one line without `=`, intermediate tier names without `min` / `max`, numerals
+that are stripped one-line strings, point numerals without `=`, `min`, `max`) follows from `KlattOk` of
+`Props/C19Whole.lean` (`KlattOk.writerOk`): every numeral `float()` accepts satisfies it (`fclass_chars`), and
+so do Praat's tier names. -/
 theorem fileText_layout (xmin xmax : Txt) (secs : List WSec) (h : File.WriterOk xmin xmax secs) :
     fileText xmin xmax secs = join ['\n'] (fileLines xmin xmax (secs.map cleanWSec)) ++ ['\n'] := by
   unfold fileText
